@@ -238,8 +238,8 @@ def parseKind (kind : String) (s : List Char) : Option String :=
   | "path" => some (prS pathS (Path.parse s))
   | "lit" => some (prS (fun l => sx ["lit", hexStr l]) (Literal.parse s))
   | "anns" => some (prS annsS (Annotations.parse s))
-  | "int" => some (prS (fun n => sx ["int", toString n]) (IntConstant.parse d s))
-  | "dbl" => some (prS (fun t => sx ["dbl", hexStr t]) (DoubleConstant.parse d s))
+  | "int" => some (prS (fun n => sx ["int", toString n]) (IntConstant.parse s))
+  | "dbl" => some (prS (fun t => sx ["dbl", hexStr t]) (DoubleConstant.parse s))
   | _ => none
 
 def alnumScan (lo hi : Nat) : Nat × Nat := Id.run do
